@@ -545,9 +545,8 @@ func (c *minecraftConn) SetOutboundState(s *state.Registry) {
 }
 
 func (c *minecraftConn) EnablePlayPacketQueue() {
-	if c.mu.TryLock() {
-		defer c.mu.Unlock()
-	}
+	c.mu.Lock()
+	defer c.mu.Unlock()
 	c.activatePlayPacketQueue()
 }
 
